@@ -986,8 +986,11 @@ func c13GenHerr(r *rand.Rand) *c13Herr {
 func c13GenHonest(r *rand.Rand) c13In {
 	in := c13In{Kind: 0, Honest: true, Pattern: c13Pattern(r), Pattern2: c13Pattern(r), EOFData: r.Intn(4) == 0}
 	n := r.Intn(21)
-	if r.Intn(3) == 0 {
+	switch r.Intn(4) {
+	case 0:
 		n = r.Intn(4)
+	case 1, 2:
+		n = r.Intn(9)
 	}
 	for i := 0; i < n; i++ {
 		var op c13WOp
